@@ -172,7 +172,24 @@ def one_sizing_routine(prog, res):
     noldm = cond_edges(f, lambda c: c.get("k") == "bin" and c["op"] == "==" and "enableLdm" in {y["f"] for y in walk(c) if y.get("k") == "mem"}, "false")
     res.check(bool(adj) and bool(siz) and f.must_pass(via_roots=adj, via_edges=noldm, targets=siz), R, "ZSTD_resetCCtx_internal:ldm-adjusted-first", f.loc,
               "ZSTD_ldm_adjustParameters precedes the sizing call when LDM is enabled", "workspace sized with unadjusted LDM parameters")
-    res.need(R, 12)
+    # sibling agreement: the one-shot and the streaming estimate hand the shared routine the same arguments except for the two
+    # buffer sizes (positions 4 and 5): same expression shape and same anchors, with the estimate's own locals expanded
+    a = prog.fn("ZSTD_estimateCCtxSize_usingCCtxParams")
+    b_ = prog.fn("ZSTD_estimateCStreamSize_usingCCtxParams")
+    ca = [c for _, _, c in a.calls(core_fn)]
+    cb = [c for _, _, c in b_.calls(core_fn)]
+    if len(ca) == 1 and len(cb) == 1 and len(ca[0]["a"]) == len(cb[0]["a"]):
+        for k in range(len(ca[0]["a"])):
+            if k in (4, 5):
+                continue
+            sa = (a.shape(ca[0]["a"][k], depth=3), frozenset(x for x in a.anchors(ca[0]["a"][k], depth=3) if x[:2] in ("f:", "c:", "p:", "k:", "e:")))
+            sb = (b_.shape(cb[0]["a"][k], depth=3), frozenset(x for x in b_.anchors(cb[0]["a"][k], depth=3) if x[:2] in ("f:", "c:", "p:", "k:", "e:")))
+            res.check(sa == sb, R, "estimate-siblings:argument-%d" % k, b_.loc, "one-shot and streaming estimate pass the same value",
+                      "ZSTD_estimateCStreamSize_usingCCtxParams and ZSTD_estimateCCtxSize_usingCCtxParams hand the sizing routine different values for argument %d "
+                      "(%s vs %s): the two estimates describe different contexts for the same parameters" % (k, sorted(sb[1] - sa[1]), sorted(sa[1] - sb[1])))
+    else:
+        res.bad(R, "estimate-siblings", b_.loc, "the two estimates no longer make one call each to the shared routine")
+    res.need(R, 18)
 
 
 def estimate_probes(prog, res):
